@@ -34,7 +34,7 @@ def run(tier, seed):
     ck.dist = dist
     ck.distinct = len(set(c["wasm"] + str(c["calls"]) for c in cases))
     ck.samples = [dict(calls=c["calls"], compiler=c["engines"]["compiler"].get("obs")) for c in cases[:3]]
-    ck.extra["rule"] = ("generated programs with host imports that panic (three Go value kinds), exit (CloseWithExitCode + ExitError) and re-enter the guest, plus unbounded recursion; "
+    ck.extra["rule"] = ("generated programs with host imports that panic (three Go value kinds), exit (CloseWithExitCode + ExitError), propagate the exit of a nested helper instance (caller stays open) and re-enter the guest, plus unbounded recursion; "
                         "histories of 4-9 calls reusing the same api.Function objects on both engines; non-trivial = history contains a failing call followed by further calls")
     shown = set()
     def viol(kind, sig, detail, **kw):
@@ -47,18 +47,22 @@ def run(tier, seed):
             if eo.get("err"):
                 viol("escaped-" + eng, {"kind": "escaped", "engine": eng}, {"err": eo["err"], "case": c}); continue
             obs = eo["obs"]
-            # oracle: documented error kinds only; after an exit every call reports that exit
-            cut = None
+            # oracle: documented error kinds only; the module is closed exactly by its own exit (host 11 with a
+            # multiple of 4); from then on no call succeeds; an exit propagated from a nested instance (host 13)
+            # leaves the module open and later calls are compared with the model like any other
+            cut = eo.get("closed_at", -1)
+            cut = None if cut is None or cut < 0 else cut
             for j, o in enumerate(obs):
                 t = o.get("trap") or ""
                 if t.startswith("other:"):
                     viol("undocumented-error", {"kind": "undocumented-error", "engine": eng}, {"call": j, "obs": o, "case": c})
-                if cut is not None and not t:
+                if cut is not None and j > cut and not t:
                     viol("call-after-exit", {"kind": "call-after-exit", "engine": eng}, {"call": j, "obs": o, "case": c})
-                if cut is None and t.startswith("exit:"):
-                    cut = j
-            if eo.get("closed") != (cut is not None):
-                viol("closed-flag", {"kind": "closed-flag", "engine": eng}, {"closed": eo.get("closed"), "case": c})
+            own_exit = any(e[0] == 11 and e[1] % 4 == 0 for e in (eo.get("hlog") or []))
+            if (cut is not None) != own_exit or eo.get("closed") != own_exit:
+                viol("closed-flag", {"kind": "closed-flag", "engine": eng}, {"closed": eo.get("closed"), "closed_at": cut, "own_exit_in_host_log": own_exit, "case": c})
+            if cut is not None and not (obs[cut].get("trap") or "").startswith("exit:"):
+                viol("closed-flag", {"kind": "closed-without-exit-error", "engine": eng}, {"closed_at": cut, "obs": obs[cut], "case": c})
             # model comparison: W does not model the closed flag (after an exit, re-entrant calls fail and successful calls
             # report the exit), so a history is compared up to and including its first exiting call; the final state
             # (host log, globals, memory) is compared only for histories without an exit
